@@ -16,12 +16,13 @@ func init() {
 			"LAY-3 alias table has both spellings of all eight types, Size() matches the format, every binary scalar reader covers uchar/int/float/double, list counts cover uchar/int/uint, lists int/uint and float; LAY-1/LAY-2 each case decodes exactly Size(type) bytes with the format's encoding; " +
 			"AXIS-1 component x is captured under the x name test, read at xOffset and stored in slot X; LAY-7 scalarType derives from the header; LAY-8 quad fan (0,1,2),(0,2,3) for indices and texture coordinates in both face readers; " +
 			"IO-3 no decode error is dropped; HDRP-1 \\r stripped, arms are equality tests on the first token, blank/unknown lines skipped, property attaches to the last element, token positions of element/property lines; " +
-			"CLAIM-2 one scalar reader per unclaimed property; REC-1 record i is delivered with index i to readers whose arrays have Count slots; LAY-5 byte order. " +
+			"CLAIM-2 one scalar reader per unclaimed property; REC-1 record i is delivered with index i to readers whose arrays have Count slots; LAY-5 byte order; " +
+			"STATE-1 no function reachable from the reader entry points writes package-level storage that the decoder reads (all decode state is per call). " +
 			"Decides necessary conditions for every property order / type mix; does not decide numeric conversion, attribute naming beyond the reader table, CRLF inside ASCII bodies, lists on the vertex element.",
 		Assumptions: []string{
 			"EliCDavis/vector DivByConstant divides every component by its argument; vectorN.New stores its k-th argument in component k",
 		},
-		Controls: plycommon.Controls,
+		Controls: controls,
 		Run:      run,
 	})
 }
@@ -59,6 +60,7 @@ func run(c *props.Ctx) {
 	plycommon.LAY5(e, ft, func(fn *ssa.Function) bool { return decode[fn] })
 	plycommon.LAY10(e)
 	plycommon.CFG1(e, func(fn *ssa.Function) bool { return decode[fn] })
+	STATE1(e)
 
 	c.R.Floor("LAY-4", 22)
 	c.R.Floor("AXIS-1", 30)
@@ -83,4 +85,5 @@ func run(c *props.Ctx) {
 	c.R.Floor("UNW-1", 1)
 	c.R.Floor("LAY-10", 11)
 	c.R.Floor("CFG-1", 8)
+	c.R.Floor("STATE-1", 2)
 }
